@@ -11,6 +11,8 @@ import (
 type Case struct {
 	Pkgs   []*Pkg
 	Shapes []string
+
+	addedDirective bool
 }
 
 type gctx struct {
@@ -190,7 +192,7 @@ func (g *gctx) structDecl(name string, n int, need TCSet, value bool, allPublic 
 
 func (g *gctx) derive(tcs TCSet, d *Decl, rec bool) {
 	for _, t := range tcs.List() {
-		if g.p.findDerive(t, d) == nil {
+		if g.p.findDerive(t, d) == nil && g.p.findOverride(t, namedTarget(d)) == nil {
 			g.p.Derives = append(g.p.Derives, &Derive{TC: t, Decl: d, Recursive: rec})
 		}
 	}
@@ -246,7 +248,7 @@ func (c *Case) genTp(r *rand.Rand, forceSimple bool) *Pkg {
 	if chance(r, 75) || forceSimple {
 		d := g.add(g.simpleStruct("Money", true))
 		for _, tc := range []TC{Eq, Ord, Hashable, Monoid} {
-			if chance(r, 55) || (forceSimple && tc == Eq) {
+			if chance(r, 55) || forceSimple {
 				g.namedOverride(tc, d, customVariant[tc], false)
 			}
 		}
@@ -322,6 +324,22 @@ func (c *Case) genWp(r *rand.Rand, tp *Pkg, must string, forceOverride bool) *Pk
 			}
 		}
 	}
+	if forceOverride && tp != nil {
+		// the precedence case: local EqString, a local Eq instance for the imported tp.Money, tp's own
+		// Ord/Hashable/Monoid instances for it, the derive package for the rest
+		var money *Decl
+		for _, d := range tp.Decls {
+			if d.Name == "Money" {
+				money = d
+			}
+		}
+		d := &Decl{Name: "V0", IsStruct: true, Value: true, Shape: "precedence"}
+		d.Fields = []Field{{"s", basic("string")}, {"n", basic("int")}, {"m", named(money)}, {"o", wrap(KOption, basic("string"))}, {"ms", wrap(KSlice, named(money))}}
+		r.Shuffle(len(d.Fields), func(i, j int) { d.Fields[i], d.Fields[j] = d.Fields[j], d.Fields[i] })
+		g.add(d)
+		g.derive(TCSet(0).With(Eq).With(Ord).With(Hashable).With(Monoid)|g.chooseTCs(allTC, 50), d, false)
+		c.Shapes = append(c.Shapes, "precedence")
+	}
 	nprod := 2 + r.IntN(3)
 	seq := 0
 	for i := 0; i < nprod; i++ {
@@ -384,7 +402,7 @@ func (c *Case) genWp(r *rand.Rand, tp *Pkg, must string, forceOverride bool) *Pk
 			h.Fields = append(h.Fields, Field{map[bool]string{true: "xn", false: "Xn"}[h.Value], named(d)})
 			g.derive(need&h.caps(), h, chance(r, 40))
 			c.Shapes = append(c.Shapes, "newtype")
-		case "generic": // generic
+		case "generic", "generic-noholder": // generic
 			need := g.chooseTCs(allTC, 60)
 			np := 2 + r.IntN(2)
 			params := []string{"A", "B", "C"}[:np]
@@ -396,6 +414,11 @@ func (c *Case) genWp(r *rand.Rand, tp *Pkg, must string, forceOverride bool) *Pk
 			d.Params = params
 			g.add(d)
 			g.derive(need&d.caps(), d, false)
+			if kind == "generic-noholder" || chance(r, 25) {
+				// no user of the instance functions in the package: only the signature check sees them
+				c.Shapes = append(c.Shapes, "generic-noholder")
+				break
+			}
 			u := g.structDecl(fmt.Sprintf("U%d", seq), r.IntN(3), need, chance(r, 50), true, nil, "generic-holder")
 			u.Fields = append(u.Fields, Field{map[bool]string{true: "xg", false: "Xg"}[u.Value], named(d, g.instArgs(d, need)...)})
 			g.add(u)
@@ -454,6 +477,9 @@ func (c *Case) genWp(r *rand.Rand, tp *Pkg, must string, forceOverride bool) *Pk
 		default: // many fields: crosses Tuple21 -> HCons
 			need := g.chooseTCs(allTC, 45)
 			n := pick(r, []int{20, 21, 22, 23, 30})
+			if i == 0 && must == "big" {
+				n = pick(r, []int{22, 23, 30}) // the forced wide product crosses the Tuple21 -> HCons switch
+			}
 			value := chance(r, 60)
 			d := &Decl{Name: fmt.Sprintf("B%d", seq), IsStruct: true, Value: value, Shape: fmt.Sprintf("big%d", n)}
 			for i := 0; i < n; i++ {
@@ -483,6 +509,25 @@ func (c *Case) genWp(r *rand.Rand, tp *Pkg, must string, forceOverride bool) *Pk
 			}
 		}
 	}
+	// Ord over a wide or nested product: every basic leaf gets a declared, call-counting OrdXxx
+	// (a local instance, found first by the documented order) so that the law test can bound the
+	// number of component comparisons with a logical clock instead of a timer.
+	instrument := false
+	for _, x := range p.Derives {
+		if x.TC == Ord && x.Decl.IsStruct && (len(x.Decl.Fields) >= 7 || hasNamedField(x.Decl)) {
+			instrument = true
+		}
+	}
+	if instrument {
+		seen := map[string]bool{}
+		for _, b := range basicsFor(allTC) {
+			if !seen[b] && p.findOverride(Ord, "basic:"+b) == nil {
+				p.Overrides = append(p.Overrides, &Override{TC: Ord, Name: "Ord" + pub(b), Target: "basic:" + b, Variant: "std"})
+			}
+			seen[b] = true
+		}
+		c.Shapes = append(c.Shapes, "override.counting-Ord-leaves")
+	}
 	return p
 }
 
@@ -491,21 +536,42 @@ func (c *Case) genWp(r *rand.Rand, tp *Pkg, must string, forceOverride bool) *Pk
 // recursive=true, an expected implicit derivation) is added; numeric Monoid leaves get a
 // declared MonoidXxx.
 func (c *Case) ensure(r *rand.Rand) {
-	for _, p := range c.Pkgs {
-		for i := 0; i < len(p.Derives); i++ {
-			x := p.Derives[i]
-			if x.Decl.IsStruct {
-				for _, f := range x.Decl.Fields {
-					if x.Decl.Pkg != p && !x.Decl.Value && !f.Public() {
-						continue
-					}
-					c.ensureType(r, p, x.TC, f.T, x.Recursive)
+	for round := 0; round < 200; round++ {
+		// implicit derivations are recomputed from the current set of directives
+		for _, p := range c.Pkgs {
+			var keep []*Derive
+			for _, x := range p.Derives {
+				if !x.Implicit {
+					keep = append(keep, x)
 				}
-			} else {
-				c.ensureType(r, p, x.TC, x.Decl.Under, x.Recursive)
+			}
+			p.Derives = keep
+		}
+		c.addedDirective = false
+	pass:
+		for _, p := range c.Pkgs {
+			for i := 0; i < len(p.Derives); i++ {
+				x := p.Derives[i]
+				if x.Decl.IsStruct {
+					for _, f := range x.Decl.Fields {
+						if x.Decl.Pkg != p && !x.Decl.Value && !f.Public() {
+							continue
+						}
+						c.ensureType(r, p, x.TC, f.T, x.Recursive)
+					}
+				} else {
+					c.ensureType(r, p, x.TC, x.Decl.Under, x.Recursive)
+				}
+				if c.addedDirective {
+					break pass
+				}
 			}
 		}
+		if !c.addedDirective {
+			return
+		}
 	}
+	panic("ensure: no fixpoint")
 }
 
 func (c *Case) ensureType(r *rand.Rand, p *Pkg, tc TC, t *TX, rec bool) {
@@ -535,10 +601,16 @@ func (c *Case) ensureType(r *rand.Rand, p *Pkg, tc TC, t *TX, rec bool) {
 		res := resolveNamed(tc, p, d, rec)
 		add := func(implicit bool) {
 			p.Derives = append(p.Derives, &Derive{TC: tc, Decl: d, Recursive: implicit, Implicit: implicit})
+			if !implicit {
+				c.addedDirective = true
+			}
 		}
 		switch {
 		case res.mode == mNone:
-			add(rec && d.derivable() && len(d.Params) == 0)
+			// Monoid of a named basic type: monoid.Sum/Product unify by type before a recursive
+			// derivation is tried and their choice is not documented: always a directive there
+			basicNewtype := !d.IsStruct && d.Under.K == KBasic
+			add(rec && d.derivable() && len(d.Params) == 0 && !(tc == Monoid && basicNewtype))
 		case res.mode == mDefault && tc == Clone && hasMutableStorage(t, map[*Decl]bool{}):
 			add(false)
 		}
